@@ -145,6 +145,42 @@ func (s SV) Build() *secp256k1.Scalar {
 	return out
 }
 
+// RelatedSV derives from s a DIFFERENT scalar whose stored limbs (in the domain s is given in) look alike: one limb replaced, one
+// bit flipped, two limbs swapped, limbs rotated, the same word xor-ed into two limbs (the xor of the limbs is kept), a word moved
+// from one limb to another (the sum of the limbs is kept). It is used right BEFORE the call under test, on another object:
+// whatever a call remembers about its operand (a one-entry cache, a table keyed by part of the value, by a fold of the limbs)
+// must not leak into the next call on a look-alike operand.
+func RelatedSV(t *rapid.T, s SV) SV {
+	l := gen.ToLimbs(gen.B(s.Hex))
+	i, j := gen.Pick(t, "ri", 4), gen.Pick(t, "rj", 4)
+	if i == j {
+		j = (i + 1) % 4
+	}
+	x := gen.U64(t, "rx")
+	switch gen.Pick(t, "relKind", 6) {
+	case 0:
+		l[i] = x
+	case 1:
+		l[i] ^= 1 << (x % 64)
+	case 2:
+		l[i], l[j] = l[j], l[i]
+	case 3:
+		l = [4]uint64{l[1], l[2], l[3], l[0]}
+	case 4:
+		l[i] ^= x
+		l[j] ^= x
+	default:
+		l[i] += x
+		l[j] -= x
+	}
+	v := gen.FromLimbs(l)
+	if v.Cmp(ref.N) >= 0 {
+		l[3] &= 1<<63 - 1
+		v = gen.FromLimbs(l)
+	}
+	return SV{Hex: gen.H(v), Mont: s.Mont}
+}
+
 // SVGen draws scalar values in both domains.
 func SVGen() *rapid.Generator[SV] {
 	return rapid.Custom(func(t *rapid.T) SV {
